@@ -169,6 +169,61 @@ fn ki5b_extra() {
     kani::cover!(null_extra && matches!(mode, Mode::Type));
 }
 
+/// A string field starts at offset 0 of the caller's buffer: whatever `length` was left behind by earlier work on the same
+/// stream object (a previous member, an abandoned block before inflateReset), an absent extra field / name still hands the
+/// next field `length == 0` — the entry invariant `ki5b_name` / `ki5b_comment` start from.
+fn field_entry_length(sel: bool) {
+    // sel false: Extra (absent) -> Name;  true: Name (absent) -> Comment   (concrete per harness: R11)
+    let mut nbuf = [0u8; 4];
+    let mut head = gz_header::default();
+    head.name = nbuf.as_mut_ptr();
+    head.name_max = 4;
+    head.comment = nbuf.as_mut_ptr();
+    head.comm_max = 4;
+    let mut out = [0u8; 4];
+    let mut win = [0u8; 8 + 64];
+    let mut state = typed_state(&mut win, 6, if sel { Mode::Name } else { Mode::Extra });
+    state.gzip_flags = if sel { 0x1008 } else { 0x0808 };
+    let hcrc: bool = kani::any();
+    if hcrc {
+        state.gzip_flags |= 0x0200;
+    }
+    let stale: usize = kani::any();
+    state.length = stale;
+    state.head = head_ref(&mut head);
+    state.flush = InflateFlush::NoFlush;
+    let input = [0u8; 1];
+    unsafe { state.bit_reader.update_slice(input.as_ptr(), 0) };
+    state.in_available = 0;
+    state.writer = unsafe { Writer::new_uninit(out.as_mut_ptr(), 4) };
+    let rc = state.dispatch();
+    assert!(rc == ReturnCode::Ok);
+    assert!(if sel { matches!(state.mode, Mode::Comment) } else { matches!(state.mode, Mode::Name) });
+    assert!(state.length == 0, "the next string field is stored from offset 0");
+    kani::cover!(stale > 4 && hcrc);
+    core::mem::forget(state);
+}
+macro_rules! field_entry_harness {
+    ($name:ident, $sel:expr) => {
+        #[kani::proof]
+        #[kani::unwind(6)]
+        #[kani::stub(crate::inflate::inftrees::inflate_table, stub_table_unreachable)]
+        #[kani::stub(core::fmt::write, stub_fmt_write)]
+        #[kani::stub(core::panicking::panic_nounwind, stub_pn)]
+        #[kani::stub(core::panicking::panic_nounwind_fmt, stub_pnf)]
+        #[kani::stub(crate::crc32::crc32, stub_crc_nondet)]
+        #[kani::stub(crate::inflate::State::len_and_friends, stub_laf_suspends)]
+        #[kani::stub(crate::inflate::writer::Writer::copy_match, stub_copy_match_unreachable)]
+        #[kani::stub(crate::inflate::writer::Writer::extend_from_window, stub_efw_unreachable)]
+        #[kani::stub(<[u16]>::fill, stub_fill_unreachable)]
+        fn $name() {
+            field_entry_length($sel);
+        }
+    };
+}
+field_entry_harness!(ki5b_name_entry_length, false);
+field_entry_harness!(ki5b_comment_entry_length, true);
+
 fn string_field(mode_sel: bool) {
     // mode_sel: false = Name, true = Comment
     const NI: usize = 6;
